@@ -39,7 +39,7 @@ def shards(tier):
 
 
 _OS_STEPS = ['add:thread', 'add:process', 'add:process', 'add:remote', 'attach:process', 'run', 'run', 'restart', 'sigkill', 'stuck:process', 'stuck:remote', 'add_hook_raises',
-             'add_dead_port', 'linger_die:process']
+             'add_dead_port', 'linger_die:process', 'stuck_restart:process', 'stuck_restart:remote']
 
 
 def strategy(tier):
@@ -165,7 +165,7 @@ def run_os(case, ctx):
                             out.label('os:sigkill')
                             os.kill(vict[0].pid, signal.SIGKILL)
                             wait_gone([vict[0].pid], 3)
-                    elif s_.startswith('stuck:'):
+                    elif s_.startswith('stuck:') or s_.startswith('stuck_restart:'):
                         k = s_.split(':')[1]
                         kw = {'host': srv.addr} if k == 'remote' else {}
                         w = bounded(pool.add_worker, 30, WorkerType.PROCESS if k == 'process' else WorkerType.REMOTE, target=vtargets.swallow_everything, **kw)
@@ -173,6 +173,16 @@ def run_os(case, ctx):
                         stuck = True
                         nonthread += 1
                         out.label('os:stuck_worker')
+                        if s_.startswith('stuck_restart:'):
+                            # restart_workers() that cannot stop this worker (graceful only, short timeout): whether it raises or not, the worker
+                            # must stay on the pool's books - leaving the pool still has to end it (round-4 seed C09-m7)
+                            out.label('os:restart_fails_on_stuck_worker')
+                            time.sleep(0.3)       # let the child enter the target, so that it is the target that swallows the exception
+                            try:
+                                bounded(pool.restart_workers, 60, timeout=0.3, force=False)
+                                log.append(['restart_stuck', 'returned'])
+                            except RuntimeError as e:
+                                log.append(['restart_stuck', 'RuntimeError'])
                     elif s_ == 'linger_die:process':
                         # a worker whose work fails during a run (the pool is told about its death) while its process stays alive
                         os.environ['VERIF_ESCAPE'] = escape
